@@ -30,6 +30,13 @@ def gen_case(rng, k):
         else:
             f["path"] = "src/main.idl"
     fs["main"] = "src/main.idl"
+    if k % 4 == 3:
+        # includes spelled with a directory part (relative to the including file, whatever the
+        # working directory holds under the same relative path)
+        by = {os.path.basename(f["path"]): f["path"] for f in fs["files"]}
+        for f in fs["files"]:
+            f["includes"] = [os.path.relpath(by[i], os.path.dirname(f["path"])) if i in by and rng.random() < 0.7 else i for i in f["includes"]]
+            f["includes"] = [i if ("/" in i or i not in by or rng.random() < 0.5) else "./" + i for i in f["includes"]]
     return fs
 
 
@@ -86,6 +93,17 @@ def run(ctx):
         other = os.path.join(work, "cases", str(k), "elsewhere")
         os.makedirs(other, exist_ok=True)
         variants.append(("other-cwd", A("src/main.idl"), A("inc"), other))
+        # a working directory that holds decoys under the relative paths the includes are spelled with
+        decoy_cwd = os.path.join(work, "cases", str(k), "decoys", "cwd")
+        os.makedirs(decoy_cwd, exist_ok=True)
+        for f in fs["files"]:
+            for i in f["includes"]:
+                if "/" in i:
+                    dp = os.path.normpath(os.path.join(decoy_cwd, i))
+                    if dp.startswith(os.path.join(work, "cases", str(k), "decoys")):
+                        os.makedirs(os.path.dirname(dp), exist_ok=True)
+                        open(dp, "w").write("struct Decoy { uint64 not_the_file_you_meant; };\nthis is not IDL {{{\n")
+        variants.append(("decoy-cwd", A("src/main.idl"), A("inc"), decoy_cwd))
         link = os.path.join(work, "cases", str(k), "link")
         if not os.path.islink(link):
             os.symlink(root, link)
